@@ -53,13 +53,16 @@ def _text(eng, parts):
 
 
 # --------------------------------------------------------------------------- mock specifiers
-def make_identity_harness(max_kwargs: int, val_len: int, route: str):
+CONCRETE_VALUES = {float: ["0.5", "-2", "1e-3", "x"], int: ["7", "-1", "2.5"]}
+
+
+def make_identity_harness(max_kwargs: int, val_len: int, route: str, concrete_values: bool = False):
     def harness(eng):
         import pyimpspec.cli.utility as cu
         import pyimpspec.mock_data as md
         # identifier: (a) bracket-free text without ':' (mock identifiers, wildcards); (b) a circuit description code whose braces
         # may hold anything, colons included, followed by a bracket-free tail without ':'
-        form = eng.choice(3, "id.form")
+        form = eng.choice(3, "id.form") if route != "inputs" else 0     # (parse_inputs hashes its paths: concrete text only)
         if form == 0:
             ident = ["CIRCUIT_1"]
         elif form == 1:
@@ -72,7 +75,11 @@ def make_identity_harness(max_kwargs: int, val_len: int, route: str):
         names = sorted(KEYS)
         for j in range(k):
             key = names[eng.choice(len(names), "key%d" % j)]
-            val = _chars(eng, "v%d_" % j, 1 + eng.choice(val_len, "v%d.len" % j), ":,={}[]()")
+            if concrete_values:
+                cv = CONCRETE_VALUES[KEYS[key]]
+                val = [cv[eng.choice(len(cv), "v%d.index" % j)]]
+            else:
+                val = _chars(eng, "v%d_" % j, 1 + eng.choice(val_len, "v%d.len" % j), ":,={}[]()_infatyINFATY \t\n\r\x0b\x0c\x1c\x1d\x1e\x1f")
             pre = ("", " ")[eng.choice(2, "blank%d" % j)]
             parts += [":" if j == 0 else ","] + [pre, key, "="] + val + [pre]
             expected.append((key, _text(eng, val)))
@@ -120,10 +127,16 @@ def make_identity_harness(max_kwargs: int, val_len: int, route: str):
         eng.check(ok, "identity:a well-formed specifier is accepted", lambda: "%r -> %r" % (spec, res))
         if not ok:
             return
-        eng.check(len(seen) == 1, "identity:the generator is called once")
-        if len(seen) != 1:
+        # (parse_inputs validates a specifier by generating the data once before it generates them for use)
+        calls = 2 if route == "inputs" else 1
+        eng.check(len(seen) == calls, "identity:the generator is called with one set of arguments", lambda: "%d calls" % len(seen))
+        if len(seen) != calls:
             return
-        got_id, got_kw = seen[0]
+        got_id, got_kw = seen[-1]
+        if calls == 2:
+            a, b = seen
+            eng.check(bool(same(a[0], b[0])) and sorted(map(str, a[1])) == sorted(map(str, b[1])) and all(bool(same(a[1][k], b[1][k])) for k in a[1]),
+                      "identity:validation and use see the same arguments")
         eng.check(bool(same(got_id, ident_text)) if is_symbolic(got_id) or is_symbolic(ident_text) else got_id == ident_text,
                   "identity:the identifier reaches the generator unchanged", lambda: "%r vs %r" % (got_id, ident_text))
         eng.check(sorted(str(x) for x in got_kw) == sorted(want), "identity:exactly the written keywords reach the generator", lambda: "%r vs %r" % (sorted(map(str, got_kw)), sorted(want)))
@@ -218,15 +231,19 @@ def obligations(tier: str):
     import pyimpspec.cli.parse as cp
     import pyimpspec.data.data_set as ds
     obs = []
-    mk, vl = (2, 2) if tier == "quick" else (2, 3)
+    mk, vl = (1, 2) if tier == "quick" else (1, 3)
     stubs = ["generate_mock_data / generate_mock_circuits are replaced by a recorder (what reaches them is the subject)",
              "float(text) / int(text): Python's numeral syntax decided exactly on the symbolic characters; the value is an uninterpreted number, the same for the same characters",
              "parse: parse_inputs returns the symbolic data set(s); format_text records the table it is handed; pandas.DataFrame is a stand-in holding columns and rows"]
     for route in ("data", "circuits", "inputs"):
-        obs.append(Obligation("identity.%s" % route, make_identity_harness(mk, vl, route),
+        obs.append(Obligation("identity.%s" % route, make_identity_harness(mk if route != "inputs" else 2, vl, route, concrete_values=(route == "inputs")),
                               bounds="specifier = identifier (CIRCUIT_1 | 1-2 symbolic bracket-free characters | R{2 symbolic characters}+0-1 symbolic characters) + 0..%d keyword arguments out of the 6 "
-                                     "documented ones, each value 1..%d symbolic ASCII characters, optional blanks around an argument; route %s" % (mk, vl, route),
+                                     "documented ones, each value 1..%d symbolic ASCII characters, optional blanks around an argument; route %s%s" % (
+                                         mk, vl, route, " (concrete identifier and values from a list: parse_inputs hashes its paths)" if route == "inputs" else ""),
                               functions=[cu._parse_identity, cu.get_mock_data, cu.get_mock_circuits, cu.parse_inputs], stubs=stubs, expect_reach=["identity"], max_paths=2000000))
+    obs.append(Obligation("identity.two", make_identity_harness(2, 1, "data", concrete_values=True),
+                          bounds="as identity.data with 0..2 keyword arguments whose values are taken from a list of numerals and non-numerals (%r)" % (CONCRETE_VALUES,),
+                          functions=[cu._parse_identity, cu.get_mock_data], stubs=stubs, expect_reach=["identity"], max_paths=2000000))
     for two in (False, True):
         n = (2 if two else 3) if tier == "quick" else (3 if two else 4)
         obs.append(Obligation("parse.%d" % (2 if two else 1), make_parse_harness(n, two),
@@ -244,7 +261,7 @@ EXPLANATION = (
     "the table handed to the formatter can differ from what the API sequence of filters and exclusions leaves."
 )
 ASSUMPTIONS = ["identifiers contain ':' only inside brackets (mock identifiers have none; in a circuit description code a colon only occurs inside braces)",
-               "value texts contain none of ':' ',' '=' and no brackets", "floats as reals; numerals as uninterpreted numbers"]
+               "value texts contain no white space, none of ':' ',' '=' '_', no brackets and none of the letters of inf / nan / infinity (those spellings are outside)", "floats as reals; numerals as uninterpreted numbers"]
 OUTSIDE = ["text formatting of numbers (pandas to_csv / to_markdown / to_json / to_latex)", "argparse, configuration files, output files", "the commands circuit --simulate, fit, drt, test, zhit, plot "
            "(matplotlib and the numerical pipelines)", "--average-data-sets", "that generate_mock_data itself is deterministic (C17)"]
 
